@@ -807,6 +807,8 @@ class ParameterisedActionSpace(spaces.MultiDiscrete):
         assert isinstance(action_vec, (list, tuple, np.ndarray)), \
             ("When using parameterised action space, action must be an Action"
              f" object, a list or a numpy array: {action_vec} is invalid")
+        # plain ints: arithmetic on narrow NumPy integer types can overflow
+        action_vec = [int(x) for x in action_vec]
         a_class = self.action_types[action_vec[0]]
         # need to add one to subnet to account for Internet subnet
         subnet = action_vec[1]+1
